@@ -1,7 +1,9 @@
 (* C06 driver: one case per line  "<op> <K> <thr> <hex args...>"  ->  results in hex *)
 let zs = z_of_string
-let p2 (a, b) = hex_of_z a ^ " " ^ hex_of_z b
-let p3 ((a, b), c) = hex_of_z a ^ " " ^ hex_of_z b ^ " " ^ hex_of_z c
+let h = hex_of_z
+let sz = string_of_z
+let p2 (a, b) = h a ^ " " ^ h b
+let p3 ((a, b), c) = h a ^ " " ^ h b ^ " " ^ h c
 let () = run_lines (fun toks ->
   match toks with
   | op :: ks :: thrs :: args ->
@@ -15,13 +17,58 @@ let () = run_lines (fun toks ->
      | "add_1" -> p2 (Model.add_1Z k a.(0))
      | "sub" -> p2 (Model.subZ k a.(0) a.(1))
      | "sub_wc" -> p2 (Model.sub_wcZ k a.(0) a.(1) a.(2))
-     | "cmp" -> string_of_z (Model.cmpZ k a.(0) a.(1))
+     | "sub_w" -> p2 (Model.sub_wZ k a.(0) a.(1))
+     | "sub_1" -> p2 (Model.sub_1Z k a.(0))
+     | "cmp" -> sz (Model.cmpZ k a.(0) a.(1))
      | "lmul_naive" -> p2 (Model.lmul_naiveZ thr k a.(0) a.(1))
      | "lmul_kara" -> p2 (Model.lmul_karaZ thr k a.(0) a.(1))
      | "lmul" -> p2 (Model.lmulZ thr k a.(0) a.(1))
      | "laddmul" -> p3 (Model.laddmulZ thr k a.(0) a.(1) a.(2))
      | "laddmul2" -> p3 (Model.laddmul2Z thr k a.(0) a.(1) a.(2))
-     | "mul" -> hex_of_z (Model.mulZ thr k a.(0) a.(1))
-     | "addmul" -> hex_of_z (Model.addmulZ thr k a.(0) a.(1) a.(2))
+     | "mul" -> h (Model.mulZ thr k a.(0) a.(1))
+     | "addmul" -> h (Model.addmulZ thr k a.(0) a.(1) a.(2))
+     | "lmul_w" -> p2 (Model.lmul_wZ k a.(0) a.(1))
+     | "lsquare" -> p2 (Model.lsquareZ thr k a.(0))
+     | "square" -> h (Model.squareZ thr k a.(0))
+     | "lnot" -> h (Model.lnotZ k a.(0))
+     | "neg" -> h (Model.negZ k a.(0))
+     | "lor" -> h (Model.lorZ k a.(0) a.(1))
+     | "lxor" -> h (Model.lxorZ k a.(0) a.(1))
+     | "land" -> h (Model.landZ k a.(0) a.(1))
+     | "lor_w" -> h (Model.lor_wZ k a.(0) a.(1))
+     | "lxor_w" -> h (Model.lxor_wZ k a.(0) a.(1))
+     | "land_w" -> h (Model.land_wZ k a.(0) a.(1))
+     | "bits" -> let (((hb, lb), (sh, sl)), (mp, on)) = Model.bitsZ k a.(0) in
+                 String.concat " " [h hb; h lb; h sh; h sl; h mp; h on]
+     | "limb" -> p2 (Model.limbZ k a.(0) a.(1) a.(2))
+     | "shl" -> h (Model.shlZ k a.(0) a.(1))
+     | "shr" -> h (Model.shrZ k a.(0) a.(1))
+     | "shl1" -> p2 (Model.shl1Z k a.(0))
+     | "shr1" -> p2 (Model.shr1Z k a.(0))
+     | "shl_ext" -> h (Model.shl_extZ k a.(0) a.(1))
+     | "norm" -> h (Model.normZ k a.(0))
+     | "udiv" -> p2 (Model.udivZ a.(0) a.(1) a.(2))
+     | "div32" -> let ((q, r1), r0) = Model.div32Z thr k a.(0) a.(1) a.(2) a.(3) a.(4) in String.concat " " [h q; h r1; h r0]
+     | "div21" -> p2 (Model.div21Z thr k a.(0) a.(1) a.(2))
+     | "div" -> p2 (Model.divZ thr k a.(0) a.(1))
+     | "div_w" -> p2 (Model.div_wZ thr k a.(0) a.(1))
+     | "mod_n" -> h (Model.mod_nZ thr k a.(0) a.(1))
+     | "gcd" -> h (Model.gcdZ thr k a.(0) a.(1))
+     | "inv_mod" -> h (Model.inv_modZ thr k a.(0) a.(1))
+     | "bezout_mod" -> p2 (Model.bezout_modZ thr k a.(0) a.(1))
+     | "exp_mod" -> h (Model.exp_modZ thr k a.(0) a.(1) a.(2))
+     | "exp_mod_w" -> h (Model.exp_mod_wZ thr k a.(0) a.(1) a.(2))
+     | "arazi_qi" -> h (Model.arazi_qiZ thr k a.(0))
+     | "mpz_to_ruint" -> h (Model.mpz_to_ruintZ k a.(0))
+     | "mpz_to_rint" -> h (Model.mpz_to_rintZ k a.(0))
+     | "rint_to_mpz" -> sz (Model.rint_to_mpzZ k a.(0))
+     | "sdiv_q" -> h (Model.sdiv_qZ thr k a.(0) a.(1))
+     | "sdiv_r" -> h (Model.sdiv_rZ thr k a.(0) a.(1))
+     | "slmul" -> h (Model.slmulZ thr k a.(0) a.(1))
+     | "slsquare" -> h (Model.slsquareZ thr k a.(0))
+     | "scmp" -> sz (Model.scmpZ k a.(0) a.(1))
+     | "sext" -> h (Model.sextZ k a.(0))
+     | "smod_n" -> h (Model.smod_nZ thr k a.(0) a.(1))
+     | "sinv_mod" -> h (Model.sinv_modZ thr k a.(0) a.(1))
      | _ -> "UNKNOWN-OP")
   | _ -> "BAD-LINE")
